@@ -59,7 +59,9 @@ def identify(identification: Identification) -> Expression:
 
     if district_without_treatment in graph.districts():
         parents = list(graph.topological_sort())
-        expression = Product.safe(p_parents(v, parents) for v in district_without_treatment)
+        expression = Product.safe(
+            p_parents(v, parents, identification.estimand) for v in district_without_treatment
+        )
         ranges = district_without_treatment - outcomes
         return Sum.safe(
             expression=expression,
@@ -243,7 +245,9 @@ def line_6(identification: Identification) -> Expression:
         raise ValueError("Line 6 precondition not met")
 
     parents = list(graph.topological_sort())
-    expression = Product.safe(p_parents(v, parents) for v in district_without_treatments)
+    expression = Product.safe(
+        p_parents(v, parents, identification.estimand) for v in district_without_treatments
+    )
     ranges = district_without_treatments - outcomes
     return Sum.safe(
         expression=expression,
@@ -292,19 +296,34 @@ def line_7(identification: Identification) -> Identification:
             return Identification.from_parts(
                 outcomes=outcomes,
                 treatments=treatments & district,
-                estimand=Product.safe(p_parents(v, parents) for v in district),
+                estimand=Product.safe(
+                    p_parents(v, parents, identification.estimand) for v in district
+                ),
                 graph=graph.subgraph(district),
             )
 
     raise ValueError("Could not identify suitable district")
 
 
-def p_parents(child: Variable, ordering: Sequence[Variable]) -> Probability:
-    """Get a probability expression based on a topological ordering.
+def _is_observational_marginal(estimand: Expression) -> bool:
+    """Check if the estimand is the observational joint distribution or a marginal of it."""
+    while isinstance(estimand, Sum):
+        estimand = estimand.expression
+    return type(estimand) is Probability and not estimand.parents
+
+
+def p_parents(child: Variable, ordering: Sequence[Variable], estimand: Expression) -> Expression:
+    """Get the conditional of a variable given its predecessors in a topological ordering.
 
     :param child: The child variable
     :param ordering: A topologically ordered sequence of all variables. All occurring before the
         child will be used as parents.
+    :param estimand: The distribution currently carried by the identification, from which the
+        conditional is taken. If it is the observational joint distribution (or a marginal of it),
+        the conditional can be written directly.
     :return: A probability expression
     """
-    return P(child | ordering[: ordering.index(child)])
+    index = ordering.index(child)
+    if _is_observational_marginal(estimand):
+        return P(child | ordering[:index])
+    return Sum.safe(estimand, ordering[index + 1 :]) / Sum.safe(estimand, ordering[index:])
